@@ -136,7 +136,10 @@ def run(ctx):
                 "symbol / empty name, enums without values, one attribute of every type (enum attributes built from value lists "
                 "with repeats in every position, defaults and assigned values at the range bounds) on buses / nodes / messages / signals); each exported with ExportToMarkdown, parsed back and "
                 "compared block-for-block with the Coq model, property clauses evaluated against the getters, String() called "
-                "on every entity; non-trivial = distinct network (hash of the model input) that contains a multiplexer with "
+                "on every entity; enum-attribute values of 1- to 4-byte runes of every width in the non-ASCII cases; after all of "
+                "that one kind of public-API edit per case (ClearSignalGroup of a non-empty group / RemoveSignal of a child / both / "
+                "ClearAllSignalGroups, on every multiplexer) followed by a re-export judged by the same clauses and String() of the "
+                "network, the messages and the edited multiplexers; non-trivial = distinct network (hash of the model input) that contains a multiplexer with "
                 "children, an enum signal and a standard signal",
         "distribution": summ["hist"],
         "model_mismatches": mism,
